@@ -61,7 +61,7 @@ func refClimb(minp int, lhs influxql.Expr, ops []influxql.Token, rands []influxq
 }
 
 func c03Atom(r *rng, depth int) operand {
-	names := []string{"a", "b", "c", "x1", "_y", `"my col"`, `"select"`, "host"}
+	names := []string{"a", "b", "c", "x1", "_y", `"my col"`, `"select"`, "host", `"a^b"`, `"p^q"`, `"x[1]"`, `"a*b"`, `"c-d"`, `"e|f"`, `"and"`, `"j OR k"`}
 	switch k := r.intn(14); {
 	case k < 3:
 		n := pick(r, names)
